@@ -27,6 +27,7 @@ CLASS_SHAPE = {
     "version": re.compile(r"^\d+\.\d+(?:\.\d+)?(?:[-+][A-Za-z0-9.]+)?\Z"),
     "variable": re.compile(r"^\$[A-Za-z0-9_]+(?::[A-Za-z_]\w*)?\Z"),
     "expr": re.compile(r"^%s(?:[%s]%s)+\Z" % (_W, OPS, _W)),
+    "annotation_u": re.compile(r"^[^\W\d]\w*<[^\W\d]\w*>\Z"),
     "multiword_mixed": re.compile(
         r'^(?!(?:true|false|null|vs)\b)' + _W + r'(?: (?:(?!vs\b)' + _W + r'|42|3\.14|1\.2\.3|"[^"\\\n\t]*"))+\Z'),
 }
@@ -180,6 +181,7 @@ class Lenient:
 
     def __init__(self, seed: int, level: float = 0.6, curly: bool = False, kinds: set | None = None):
         self.r = random.Random(seed)
+        self.seed = seed
         self.level = level
         self.curly = curly  # NAME{q} spelling: only the lenient tokenizer / octave_write(lenient=true) accepts it
         self.allowed = kinds  # None = all kinds
@@ -191,7 +193,7 @@ class Lenient:
 
     # ---- choices
     def take(self, kind: str, p: float | None = None) -> bool:
-        if self.allowed is not None and kind not in self.allowed:
+        if (self.allowed is not None and kind not in self.allowed) or kind in getattr(self, "denied", ()):
             return False
         ok = self.r.random() < (self.level if p is None else p)
         if ok:
@@ -281,6 +283,12 @@ class Lenient:
                                       "line": line, "column": col})
                 return o.w(f"{name}{{{qual}}}")
             return o.w(s)
+        if cls == "annotation_u" and self.curly and bare_ok() and self.take("curly_annotation_nonascii", 0.5):
+            line, col = o.pos()
+            name, qual = s[:-1].split("<")
+            self.rewrites.append({"type": "repair_candidate", "original": f"{name}{{{qual}}}", "repaired": s, "line": line, "column": col})
+            self.may_be_refused = True
+            return o.w(f"{name}{{{qual}}}")
         if cls == "constructor" and re.match(r"^[A-Za-z_]\w*<[\w,]*>\Z", s) and bare_ok():
             name, args = s[:-1].split("<")
             if self.take("constructor_brackets", 0.7):
@@ -415,7 +423,7 @@ class Lenient:
     def nodes(self, nodes, ind: int):
         o = self.o
         pad = " " * ind
-        for n in nodes:
+        for n_i, n in enumerate(nodes):
             for c in n.get("lead", []):
                 self.comment(pad, c)
             t = n["t"]
@@ -443,6 +451,19 @@ class Lenient:
                     self.op("§", spaced_ok=False)
                     o.w(n["target"] + "]")
                 o.w(":")
+                kids = n["kids"]
+                # a comment line right after such a block is read as following the block, written at the block's indent,
+                # and taken INTO the block when that canonical text is read again (known finding C01:comment-after-zone-only-
+                # block): excluded by construction (a following sibling without lead comments) in 7 of 8 spellings
+                nxt = nodes[n_i + 1] if n_i + 1 < len(nodes) else None
+                safe = (nxt is not None and not nxt.get("lead")) or self.seed % 8 == 7
+                if (len(kids) == 1 and kids[0]["t"] == "zone" and not kids[0].get("lead") and not n.get("tail") and safe
+                        and self.take("zone_fence_at_key_column", 0.5 * self.level)):
+                    # GH#259 spelling: a block whose only child is a key-less literal zone may have the fences in the
+                    # key's own column (or further left); what follows at the block's level stays a sibling
+                    o.w("\n")
+                    self.zone(kids[0]["zone"], " " * self.r.choice([ind, ind, 0]))
+                    continue
                 self.eol()
                 w = self.width()
                 self.nodes(n["kids"], ind + w)
@@ -506,7 +527,9 @@ class Lenient:
         return o.text()
 
 
-def render_lenient(doc, seed: int, level: float = 0.6, curly: bool = False, kinds: set | None = None):
+def render_lenient(doc, seed: int, level: float = 0.6, curly: bool = False, kinds: set | None = None, deny: set | None = None):
     L = Lenient(seed, level, curly, kinds)
+    L.denied = set(deny or ())
     text = L.doc(doc)
-    return text, {"rewrites": L.rewrites, "used": L.used, "protected": L.protected, "advisory": L.advisory}
+    return text, {"rewrites": L.rewrites, "used": L.used, "protected": L.protected, "advisory": L.advisory,
+                  "may_be_refused": getattr(L, "may_be_refused", False)}
